@@ -289,3 +289,44 @@ Theorem C06_map_forest_undo_k_blocks :
       getRoots HO m' = roots HO s /\ ms_n m' = num_leaves s.
 Proof. exact undo_blocks_consistent. Qed.
 Print Assumptions C06_map_forest_undo_k_blocks.
+
+(** ** "... and re-applying the same or different blocks from there behaves exactly as if the undone
+    blocks had never been applied" (Proofs/MapMutUndo3.v): histories that MIX blocks and undos on a full
+    map forest.  Every valid sequence of [SBlock]/[SUndo] operations from the empty forest runs on the
+    mirror without error; the final state shows, for the forest obtained from the blocks that were NOT
+    undone, the reference roots, leaf count, positions and canonical proofs - and it is observationally
+    equal to the state reached by the clean history that never applied the undone blocks.  (Partial
+    forests: the same theorem is proved under the explicit premise [undo_tidy] - "Undo leaves nothing
+    superfluous stored" - which is validated by computation and by the correspondence run only.) *)
+From Utreexo Require Import Proofs.MapMutUndo3.
+
+Theorem C06_map_forest_mixed_histories :
+  forall (H : Type) (HO : ops H), ops_ok HO ->
+  (forall x y, op_eqb HO (op_hash2 HO x y) (op_empty HO) = false) ->
+  forall (T : N) (l : list (sop H)),
+    T <= 63 -> svalid H HO true (st0 H) l ->
+    exists m,
+      srun_all H HO true (st0 H) (m0 H true T) l = Some m /\
+      (let sF := fst (fst (sfinal H HO true (st0 H) l)) in
+       getRoots HO m = roots HO sF /\ ms_n m = num_leaves sF /\
+       (forall hs, (forall h, In h hs -> In (Some h) sF) -> NoDup hs ->
+                   Prove HO m hs = exp_prove HO (mk_ctx HO sF) hs) /\
+       (forall h, In (Some h) sF <-> (exists p, GetLeafPosition HO m h = Some p)) /\
+       (forall h, GetLeafPosition HO m h = leaf_pos HO (rows_of (num_leaves sF)) (layout HO sF) h)).
+Proof. exact full_history_observables. Qed.
+Print Assumptions C06_map_forest_mixed_histories.
+
+Theorem C06_map_forest_as_if_never_applied :
+  forall (H : Type) (HO : ops H), ops_ok HO ->
+  (forall x y, op_eqb HO (op_hash2 HO x y) (op_empty HO) = false) ->
+  forall (T : N) (l : list (sop H)),
+    T <= 63 -> svalid H HO true (st0 H) l ->
+    exists m m',
+      srun_all H HO true (st0 H) (m0 H true T) l = Some m /\
+      MapMutUnify2.hrun2 H HO true ([], []) (m0 H true T) (as_bops H (rev (net H l []))) = Some m' /\
+      getRoots HO m = getRoots HO m' /\ ms_n m = ms_n m' /\
+      (forall h, GetLeafPosition HO m h = GetLeafPosition HO m' h) /\
+      (forall hs, (forall h, In h hs -> exists p, GetLeafPosition HO m h = Some p) -> NoDup hs ->
+                  Prove HO m hs = Prove HO m' hs).
+Proof. exact full_history_as_if. Qed.
+Print Assumptions C06_map_forest_as_if_never_applied.
